@@ -27,6 +27,7 @@ LOADER_RANGE = {"_cbor_load_uint8": (0, 2 ** 8 - 1), "_cbor_load_uint16": (0, 2 
 DATA_CALLBACKS = {"byte_string", "string"}  # cbor_callbacks members taking (context, data, length)
 
 DECIDED = [
+    "STREAM/dispatch: for every initial byte (all case labels, via the states NUM reaches) cbor_stream_decode reports the item through the callback of that byte's major type and width and loads its argument with the loader of the announced width (RFC 8949 section 3); the multi-byte loaders assemble their bytes big-endian, each byte once",
     "STREAM: cbor_stream_decode reads only inside the source_size bytes it is given - every dereference, every big-endian loader call (widths verified from the loader bodies) and every (pointer, length) pair handed to the string callbacks - for all source_size and all header/length values, including lengths near SIZE_MAX (claim_bytes' comparison is analysed with wrap-around)",
 ]
 
@@ -44,6 +45,7 @@ class StreamHooks(AwsHooks):
         if not c and e.get("fn") is not None:
             via = RU.indirect_via(num.fn, e)
             if via and via[0] == "cbor_callbacks":
+                num.__dict__.setdefault("cb_calls", []).append((e, st.copy(), via[1]))
                 if via[1] in DATA_CALLBACKS:
                     num.__dict__.setdefault("data_calls", []).append((e, st.copy(), args[1] if len(args) > 1 else None, args[2] if len(args) > 2 else None))
                 return None  # callbacks receive values, never a pointer to the decoder's locals
@@ -184,13 +186,118 @@ def claimed(R, P):
 STREAM_MIN = 45
 
 
+def _case_of(st):
+    import re
+    for t in st.trail:
+        m = re.match(r"\('case', (\d+)\)", str(t[2]))
+        if m:
+            return int(m.group(1))
+    return None
+
+
+def expected_callbacks(K):
+    """RFC 8949 initial byte -> the libcbor callbacks that may report it (major type in the top 3 bits, width in the low 5)"""
+    major, ai = K >> 5, K & 31
+    w = {24: "8", 25: "16", 26: "32", 27: "64"}.get(ai, "8" if ai < 24 else None)
+    if major == 0:
+        return {"uint" + w} if w else set()
+    if major == 1:
+        return {"negint" + w} if w else set()
+    if major in (2, 3):
+        base = "byte_string" if major == 2 else "string"
+        return {base} if ai <= 27 else ({base + "_start"} if ai == 31 else set())
+    if major in (4, 5):
+        base = "array_start" if major == 4 else "map_start"
+        return {base} if ai <= 27 else ({"indef_" + base} if ai == 31 else set())
+    if major == 6:
+        return {"tag"} if ai <= 27 else set()
+    return {20: {"boolean"}, 21: {"boolean"}, 22: {"null"}, 23: {"undefined"}, 25: {"float2"}, 26: {"float4"}, 27: {"float8"}, 31: {"indef_break"}}.get(ai, set())
+
+
+def expected_loader(K):
+    major, ai = K >> 5, K & 31
+    if ai < 24:
+        return {"_cbor_load_uint8"}
+    if major == 7:
+        return {25: {"_cbor_load_half"}, 26: {"_cbor_load_float"}, 27: {"_cbor_load_double"}}.get(ai, set())
+    return {24: {"_cbor_load_uint8"}, 25: {"_cbor_load_uint16"}, 26: {"_cbor_load_uint32"}, 27: {"_cbor_load_uint64"}}.get(ai, set())
+
+
+def dispatch(R, P):
+    """STREAM/dispatch: for every initial byte the decoder invokes the callback of that byte's major type and width and
+    loads the argument with the loader of that width (RFC 8949 section 3), decided per case label from the states NUM
+    reaches; the loaders assemble their bytes big-endian."""
+    f = P.fn("cbor_stream_decode")
+    if f is None:
+        return
+    num = Num(f, P, EntryExtents(StreamHooks(), f, {"source": "source_size"}), max_paths=60000)
+    try:
+        num.states_at({-1})
+    except Limit as ex:
+        R.broken(str(ex))
+        return
+    seen, bad = set(), []
+    for e, st, name in getattr(num, "cb_calls", []):
+        K = _case_of(st)
+        if K is None:
+            bad.append("callback %s at line %d is reached outside the switch on the initial byte" % (name, e.get("loc", [0])[0]))
+            continue
+        seen.add(K)
+        if name not in expected_callbacks(K):
+            bad.append("initial byte 0x%02X (major type %d, additional information %d) is reported through callbacks->%s at line %d, expected %s" % (K, K >> 5, K & 31, name, e.get("loc", [0])[0], sorted(expected_callbacks(K)) or "no callback"))
+    R.check(not bad and len(seen) >= 200, "STREAM", "dispatch:callback-matches-initial-byte", "%s in cbor_stream_decode()" % STREAM, "%d initial bytes each report through the callback of their major type and width" % len(seen),
+            "the decoder reports an item as another kind than its initial byte says: %s" % "; ".join(bad[:3]))
+    badl, nl = [], 0
+    for e, st, a0 in getattr(num, "loader_calls", []):
+        K = _case_of(st)
+        if K is None:
+            continue
+        nl += 1
+        if e["callee"] not in expected_loader(K):
+            badl.append("initial byte 0x%02X loads its argument with %s at line %d, expected %s" % (K, e["callee"], e.get("loc", [0])[0], sorted(expected_loader(K))))
+    R.check(not badl and nl >= 100, "STREAM", "dispatch:loader-matches-width", "%s in cbor_stream_decode()" % STREAM, "%d loader calls use the loader of the width the initial byte announces" % nl,
+            "an argument is loaded with the wrong width: %s" % "; ".join(badl[:3]))
+    # the loaders are big-endian: byte k of W contributes at shift 8*(W-1-k), each byte exactly once
+    for name, w in sorted(LOADER_W.items()):
+        if not name.startswith("_cbor_load_uint") or w == 1:
+            continue
+        g = P.fn(name)
+        if g is None:
+            continue
+        terms = {}
+        okshape = True
+        for r_ in g.returns():
+            for x in g.walk(r_.node, follow_refs=True):
+                if x["k"] == "bin" and x["op"] == "<<":
+                    sh = g.is_const(x["a"][1])
+                    offs = [g.is_const(y["a"][1]) for y in g.walk(x["a"][0], follow_refs=True) if y["k"] == "bin" and y["op"] == "+" and g.is_const(y["a"][1]) is not None]
+                    if sh is None or len(offs) != 1:
+                        okshape = False
+                    else:
+                        terms[offs[0]] = sh
+            # the unshifted last byte
+            for x in g.walk(r_.node, follow_refs=True):
+                if x["k"] == "un" and x["op"] == "deref":
+                    y = g.d(x["a"][0])
+                    while y is not None and y["k"] == "cast":
+                        y = g.d(y["a"][0])
+                    if y is not None and y["k"] == "bin" and y["op"] == "+" and g.is_const(y["a"][1]) is not None and g.is_const(y["a"][1]) not in terms:
+                        terms[g.is_const(y["a"][1])] = 0
+        want = {k: 8 * (w - 1 - k) for k in range(w)}
+        R.check(okshape and terms == want, "STREAM", "loader:%s:big-endian" % name, "%s in %s()" % (LOADERS, name), "byte k is shifted by 8*(%d-k): network byte order, every byte once" % (w - 1),
+                "%s assembles its bytes as {offset: shift} = %s, big-endian is %s: multi-byte arguments (lengths, integers, the bits of doubles) decode to other values than were encoded" % (name, dict(sorted(terms.items())), want))
+
+
 def stream_bounds(R, P):
     loaders(R, P)
     claim_fn(R, P)
     claimed(R, P)
+    dispatch(R, P)
 
 
 MUTANTS = [
+    {"name": "two-byte-text-reported-as-bytes", "file": STREAM, "expect": "STREAM", "old": "      READ_CLAIM_INVOKE(string, _cbor_load_uint16, 2);", "new": "      READ_CLAIM_INVOKE(byte_string, _cbor_load_uint16, 2);"},
+    {"name": "uint64-loader-swaps-two-bytes", "file": LOADERS, "expect": "STREAM", "old": "         ((uint32_t) * (source + 5) << 0x10) +\n         ((uint16_t) * (source + 6) << 0x08) + (uint8_t) * (source + 7);", "new": "         ((uint32_t) * (source + 6) << 0x10) +\n         ((uint16_t) * (source + 5) << 0x08) + (uint8_t) * (source + 7);"},
     {"name": "claim-comparison-can-wrap", "file": STREAM, "expect": "STREAM", "old": "  if (required > (provided - result->read)) {", "new": "  if (result->read + required > provided) {"},
     {"name": "two-byte-tag-claims-one", "file": STREAM, "expect": "STREAM",
      "old": "      if (claim_bytes(2, source_size, &result)) {\n        callbacks->tag(context, _cbor_load_uint16(source + 1));", "new": "      if (claim_bytes(1, source_size, &result)) {\n        callbacks->tag(context, _cbor_load_uint16(source + 1));"},
